@@ -7,6 +7,16 @@
 #include <sstream>
 #include <thread>
 
+namespace A { struct Thrower { int after; }; }
+namespace ST {
+// a user-defined formatter that gives up half-way with an exception type of its own (the library has to unwind through its own frames)
+struct user_formatter_error { int code; };
+inline void format_type(const ST::format_spec &, ST::format_writer &output, const A::Thrower &t) {
+    output.append("partial output of a user formatter, longer than any small buffer: 0123456789 0123456789");
+    if (t.after) output.append_char('#', (size_t)t.after * 40);
+    throw user_formatter_error{t.after};
+}
+}
 namespace A {
 
 static void note_sig(Ctx &c, const Op &op, const std::string &extra) {
@@ -856,7 +866,7 @@ bool exec_str_b(Ctx &c, const Op &op) {
     case S_FORMAT: {
         StrObj *x = pick(v, op.a), *y = pick(v, op.b);
         if (!x) { c.skipped = true; return true; }
-        unsigned fi = op.c % (sizeof FORMATS / sizeof FORMATS[0]), var = op.d % 11;
+        unsigned fi = op.c % (sizeof FORMATS / sizeof FORMATS[0]), var = op.d % 12;
         const char *fmt = FORMATS[fi];
         bool corrupt = (op.fault & F_CORRUPT) != 0;
         static const char *const BADF[] = {"{", "{} {", "{z}", "{&9}", "{} {} {}", "}{", "{.}", "{_"};
@@ -881,6 +891,7 @@ bool exec_str_b(Ctx &c, const Op &op) {
         unsigned allowed = 0;
         if (corrupt && !wide_arg) allowed |= bit(EX_BAD_FORMAT) | bit(EX_OUT_OF_RANGE);
         if (wide_arg) { Scalars sc; if (corrupt || prec) allowed |= bit(EX_UNICODE); (void)sc; }
+        if (var == 11) allowed |= bit(EX_OTHER);          // the user formatter's own exception (when the format string reaches the second argument)
         if (!wf || (prec && !ascii)) allowed |= bit(EX_UNICODE);      // a precision may cut a multi-byte character
         void *mem = obj_alloc(sizeof(S));
         ExcKind ex = run_sut(c, op, [&] {
@@ -896,6 +907,7 @@ bool exec_str_b(Ctx &c, const Op &op) {
             case 8: new (mem) S(ST::format(ST::substitute_invalid, fmt, *x->p(), *y->p())); break;
             case 9: new (mem) S(ST::format(fmt, w16, *y->p())); break;
             case 10: new (mem) S(ST::format(fmt, w32.c_str(), *x->p())); break;
+            case 11: new (mem) S(ST::format(fmt, *x->p(), Thrower{(int)(op.b % 9)})); break;
             default: new (mem) S(ST::format_latin_1(fmt, *x->p(), *y->p())); break;
             }
         });
